@@ -2,6 +2,9 @@
 -- (every module that must be built by `lake build EpModel` is imported here)
 import EpModel.Model.Basic
 import EpModel.Model.Checksum
+import EpModel.Model.TcpOptions
+import EpModel.Spec.TcpOptions
+import EpModel.Lemmas.TcpOptions
 import EpModel.Driver.Ck
 import EpModel.Driver.Bf
 import EpModel.Driver.Opt
@@ -16,3 +19,4 @@ import EpModel.Driver.Set
 import EpModel.Driver.Build
 import EpModel.Driver.Dec
 import EpModel.Props.C09
+import EpModel.Props.C13
